@@ -82,9 +82,9 @@ type endState struct {
 }
 
 type hsResult struct {
-	c, s    endState
-	timeout bool
-	echo    string
+	c, s         endState
+	cHung, sHung bool // the end had not returned when the watchdog fired
+	echo         string
 }
 
 // ---------------------------------------------------------------------------- fixtures
@@ -221,24 +221,34 @@ func parseCase(desc string) (stack string, cc cliCfg, sc srvCfg) {
 // runBoth runs the two handshakes concurrently. An endpoint whose handshake fails closes its
 // transport end (what an application does with a connection whose handshake failed), so the
 // peer is not left waiting for bytes that will never come. A watchdog aborts both ends.
-func runBoth(ch, sh func() error, closeC, closeS func(), timeout time.Duration) (cerr, serr error, timedOut bool) {
+func runBoth(ch, sh func() error, closeC, closeS func(), timeout time.Duration) (cerr, serr error, cHung, sHung bool) {
 	var wg sync.WaitGroup
+	var mu sync.Mutex
+	cDone, sDone := false, false
 	wg.Add(2)
 	go func() {
 		defer wg.Done()
-		if p := hx.Guard(func() { cerr = ch() }); p != "" {
-			cerr = fmt.Errorf("panic=%s", p)
+		var err error
+		if p := hx.Guard(func() { err = ch() }); p != "" {
+			err = fmt.Errorf("panic=%s", p)
 		}
-		if cerr != nil {
+		mu.Lock()
+		cerr, cDone = err, true
+		mu.Unlock()
+		if err != nil {
 			closeC()
 		}
 	}()
 	go func() {
 		defer wg.Done()
-		if p := hx.Guard(func() { serr = sh() }); p != "" {
-			serr = fmt.Errorf("panic=%s", p)
+		var err error
+		if p := hx.Guard(func() { err = sh() }); p != "" {
+			err = fmt.Errorf("panic=%s", p)
 		}
-		if serr != nil {
+		mu.Lock()
+		serr, sDone = err, true
+		mu.Unlock()
+		if err != nil {
 			closeS()
 		}
 	}()
@@ -247,7 +257,9 @@ func runBoth(ch, sh func() error, closeC, closeS func(), timeout time.Duration) 
 	select {
 	case <-done:
 	case <-time.After(timeout):
-		timedOut = true
+		mu.Lock()
+		cHung, sHung = !cDone, !sDone
+		mu.Unlock()
 		closeC()
 		closeS()
 		<-done
@@ -330,14 +342,12 @@ func observe(rs []hsResult) string {
 	var main, errs []string
 	for i, r := range rs {
 		c, s := r.c.String(), r.s.String()
-		if r.timeout {
-			// the watchdog fired: the ends that had not returned by then are reported as such
-			if !r.c.ok {
-				c = "timeout"
-			}
-			if !r.s.ok {
-				s = "timeout"
-			}
+		// the ends that had not returned when the watchdog fired are reported as such
+		if r.cHung {
+			c = "timeout"
+		}
+		if r.sHung {
+			s = "timeout"
 		}
 		main = append(main, fmt.Sprintf("h%d=%s|%s|%s", i+1, c, s, dash(r.echo)))
 		if !r.c.ok || !r.s.ok {
@@ -422,8 +432,7 @@ func main() {
 		runAll(tr, tl, workers)
 	}
 	if o.Phase == "" || o.Phase == "dtlcp" {
-		// DTLCP handshakes mostly wait for a retransmission timer: run many at once
-		runAll(tr, dt, workers*4)
+		runAll(tr, dt, workers)
 	}
 	fmt.Fprintf(os.Stderr, "c01: %d tlcp + %d dtlcp cases in %.1fs\n", len(tl), len(dt), time.Since(t0).Seconds())
 }
